@@ -1057,8 +1057,19 @@ func gen(rng *vh.Rng, n int, emit func(id string, sel int, in []int64, kind stri
 			// token by token, so the input goes to the tolerance-judged stream instead
 			rejected++
 			cases = append(cases, genCase{id: fmt.Sprintf("g%d-guard%d", i, try), kind: "near-tie/guard-rejected", sel: 3, in: in})
-			if try > 50 {
-				panic("generator: cannot find an input whose float order is exact")
+			if try > 40 {
+				// the search gave up: one common utilisation is float-exact by construction;
+				// should even that be refused, the case keeps its schedulers but loses its nodes
+				cp := *in // the refused draw itself stays in the near-tie stream, untouched
+				cp.metrics = append([]metricT{}, in.metrics...)
+				for j := range cp.metrics {
+					cp.metrics[j].util = 500
+				}
+				if !floatOrderExact(&cp) {
+					cp.nodes, cp.metrics = nil, nil
+				}
+				in = &cp
+				break
 			}
 		}
 		cases = append(cases, genCase{id: fmt.Sprintf("g%d", i), kind: kind, sel: sel, in: in})
